@@ -437,6 +437,22 @@ func c15ReadSQL(c *fw.Case) {
 		f.BadValueAt = r
 		fps = append(fps, fp{fmt.Sprintf("unsupported value in row %d of %d", r, R), f, true})
 	}
+	// a driver answering with several result sets that fails while advancing to the next one (reached only by a
+	// reader that asks for further result sets; what such a reader returns without faults is its own reference)
+	multi := rng.Intn(3) == 0
+	var wantMulti *model.Frame
+	if multi {
+		f = memsql.NoFaults()
+		f.ExtraSets = 1 + rng.Intn(2)
+		if fm := readSQLWithArgs(t, f, qargs); fm.Err == nil {
+			wantMulti, _ = model.ObserveGuard(fm)
+		}
+		for k := 0; wantMulti != nil && k < f.ExtraSets; k++ {
+			g := f
+			g.NextSetAt = k
+			fps = append(fps, fp{fmt.Sprintf("NextResultSet(advance %d of %d)", k, f.ExtraSets), g, true})
+		}
+	}
 	reported := 0
 	for _, p := range fps {
 		c.Eval(1)
@@ -458,7 +474,11 @@ func c15ReadSQL(c *fw.Case) {
 			continue
 		}
 		got, oerr := model.ObserveGuard(res)
-		if oerr == nil && model.Diff(want, got) == "" {
+		ref := want
+		if p.f.ExtraSets > 0 {
+			ref = wantMulti
+		}
+		if oerr == nil && model.Diff(ref, got) == "" {
 			c.Count("faults_after_complete_data:ReadSQL", 1)
 			continue
 		}
